@@ -1,6 +1,6 @@
 // Package zzverif is a virtual package (mapped by -overlay into the goom module) that
 // re-exports internal pieces to the external harness module. Nothing is written under /repo.
-package zzverif
+package base
 
 import (
 	"github.com/tencent/goom/internal/patch"
